@@ -268,6 +268,16 @@ def run(prop, tier, replay=None):
         rep.coverage["trace_checker_cmd"] = cmd
         rep.coverage.setdefault("profiles", {})[profile] = {"walks": nwalks, "depth": depth, "behaviours": len(behs),
                                                             "tlc_states": res["distinct"]}
+    # the repository's own tests as a source of traces (TraceRepo.tla): every state the suite reaches is judged by the
+    # invariants of this property (thorough tier); the tests that witness an open finding run in every tier
+    if prop in ("C01", "C02", "C03", "C13"):
+        from . import repo_engine
+        wit = sorted({t for f in rep.findings if f.get("status") == "open" and prop in f.get("witness_props", [])
+                      for t in f.get("witness_tests", [])})
+        if wit and not only:
+            total_events += repo_engine.run_stage(prop, rep, wd, tests=wit)
+        if tier == "thorough" and not only:
+            total_events += repo_engine.run_stage(prop, rep, wd)
     # negative control (design level): a knock-out rule that zeroes every reaction of the gene must violate
     # the order/batch theorem
     controls = {}
